@@ -47,7 +47,7 @@ pub fn base_strategy() -> BoxedStrategy<BaseSpec> {
     p.fancy = 0;
     p.max_ops = 30;
     p.max_size = 9000;
-    let surplus = prop_oneof![8 => Just(0u8), 1 => 1u8..4, 1 => 108u8..=111];
+    let surplus = prop_oneof![16 => Just(0u8), 2 => 1u8..4, 2 => 108u8..=111, 1 => 236u8..=240];
     (
         proptest::sample::select(vec![3u8, 3, 4]),
         pool_strategy(NameProfile::Plain, 3, 12),
